@@ -14,6 +14,8 @@ CHECKS = {
                 text="Random and hand-picked graph shapes with permuted names (so that the topological sort is the only protection against false cycles), cyclic variants and reserved-variable jobs queued among ordinary jobs; every completion order is driver-chosen through task gates.", ref="4 C02"),
     "C03": dict(level="exploration", tech="runtime monitoring: no-idle-slot-at-logical-quiescence and all-terminal-after-drain oracles over conformance histories",
                 text="Liveness restated as bounded progress at logical instants (no wall clock): no stranded job at quiescence, all jobs terminal after drain; histories biased to cancels of waiting jobs, delays, unstartable heads.", ref="4 C03"),
+    "C04": dict(level="exploration", tech="runtime monitoring: directed sweep over cancel instants using hook H1 to park the scheduler loop at every iteration boundary (delivery observed via runner Cancel events), monitored and REAL task runner; offline per-cancel oracle over the event log",
+                text="8 cancel variants x 9 graph shapes x boundaries 0..6, each with observed (not assumed) delivery; real TaskRunner repeats with marker files; cancel-heavy conformance histories with slow-to-stop tasks add the surrounding states.", ref="4 C04"),
     "C05": dict(level="exploration", tech="runtime monitoring: one-step conformance of every schedule request against the admission decision table, snapshot invariants on waiting counts",
                 text="All 84 admission classes appear in every tier; each request's result class, victim, post-state and 'no trace' are compared with the table given the observed pre-state.", ref="4 C05"),
     "C06": dict(level="exploration", tech="runtime monitoring: FIFO oracle over recorded Created/Start of all jobs + waiting-list equality with the model after every step",
